@@ -243,13 +243,9 @@ pub fn replay_round(beh: &Value, beh_text: &str, seed: u64, round: u64, stats: &
             }
         }
         Outcome::Obs(v) => {
-            if !obs_equal(&want_out[1], v) {
-                return Err(fail(
-                    "observation",
-                    &op,
-                    format!("obs:{}", op),
-                    format!("{}: specification says {} but the library answered {}", op, want_out[1], v),
-                ));
+            let natural = natural_type_ok(&want_out[1], step, &ctx);
+            if let Err(d) = crate::obs::compare_obs(&op, &want_out[1], v, &mut ctx, natural) {
+                return Err(fail("observation", &op, format!("obs:{}", op), format!("{}: {}", op, d)));
             }
             stats.nontrivial.insert(fnv(&format!("{}|{}", op, want_out[1])));
         }
@@ -269,6 +265,29 @@ pub fn replay_round(beh: &Value, beh_text: &str, seed: u64, round: u64, stats: &
         }
     }
     Ok(())
+}
+
+/// For obs_extract on a leaf: is the requested type the value's own type?
+fn natural_type_ok(want: &Value, step: &Value, ctx: &Ctx) -> Option<bool> {
+    if want.get(0).and_then(|x| x.as_str()) != Some("leaf") {
+        return None;
+    }
+    let atom = &want[1];
+    if atom.get(0).and_then(|x| x.as_str()) != Some("v") {
+        return None;
+    }
+    let pv = ctx.atoms.get(atom[1].as_str()?)?;
+    let ty = step.get(3)?.as_str()?;
+    let nat = match pv {
+        PV::Str(_) | PV::StrSlice(_) => "String",
+        PV::U8(_) | PV::U16(_) | PV::U32(_) | PV::U64(_) | PV::Usize(_) => "u64",
+        PV::I8(_) | PV::I16(_) | PV::I32(_) | PV::I64(_) => "i64",
+        PV::Bool(_) => "bool",
+        PV::F64(..) | PV::F32(..) => "f64",
+        PV::Bytes(_) => "ByteString",
+        _ => return Some(false),
+    };
+    Some(nat == ty)
 }
 
 fn tool(s: &str) -> Failure {
